@@ -127,76 +127,108 @@ Proof.
   - intros E. injection E as -> -> ->. now rewrite !bytes_eqb_refl, Bool.eqb_reflx.
 Qed.
 
-(* two connect methods with the same pool key have the same proxy URL, hence the same
-   Proxy-Authorization *)
+(* two connect methods with the same pool key have the same proxy URL and target scheme, hence
+   the same Proxy-Authorization *)
 Theorem key_determines_auth p q hs ht t t' : host_ok p -> host_ok q ->
-  conn_key_of p hs t = conn_key_of q ht t' -> p = q /\ proxy_auth p = proxy_auth q.
+  conn_key_of p hs t = conn_key_of q ht t' -> p = q /\ hs = ht /\ proxy_auth p = proxy_auth q.
 Proof.
   intros Hp Hq E. unfold conn_key_of, key_with in E.
+  pose proof (f_equal (fun k : conn_key => snd (fst k)) E) as E2. cbn [fst snd] in E2.
   apply (f_equal (fun k : conn_key => fst (fst k))) in E. cbn [fst] in E.
   apply (pu_string_inj p q Hp Hq) in E. subst. auto.
 Qed.
 
 (* ---------- the carried state: idle connections and their remembered header ---------- *)
 
-(* every idle connection's header is the one any proxy URL with that key prescribes *)
-Definition pool_ok (pl : pool) : Prop :=
-  forall k h, In (k, h) pl -> forall p https t, host_ok p -> conn_key_of p https t = k -> h = proxy_auth p.
+Section Static.
+  (* Proxy-Authorization inside the static Transport.ProxyConnectHeader, if the caller put one *)
+  Variable static : option bytes.
 
-Lemma pool_find_in k pl h : pool_find k pl = Some h -> In (k, h) pl.
-Proof.
-  induction pl as [|[k' h'] r IH]; [discriminate|]. cbn [pool_find].
-  destruct (key_eqb k k') eqn:E.
-  - apply key_eqb_eq in E. intros X. injection X as ->. left. now subst.
-  - intros X. right. auto.
-Qed.
+  (* every idle connection's header is the one any proxy URL / target scheme with that key prescribes *)
+  Definition pool_ok (pl : pool) : Prop :=
+    forall k h, In (k, h) pl -> forall p https t, host_ok p -> conn_key_of p https t = k -> h = sent_auth static https p.
 
-Theorem proxy_step_current pl p https t : pool_ok pl -> host_ok p ->
-  let '(seen, pl') := proxy_step pl p https t in
-  pool_ok pl' /\ (forall h, In h seen -> h = proxy_auth p) /\ (https = false -> seen = [proxy_auth p]).
-Proof.
-  intros Hpl Hp. unfold proxy_step, proxy_step_with. fold (conn_key_of p https t).
-  destruct (pool_find (conn_key_of p https t) pl) as [h|] eqn:F.
-  - apply pool_find_in in F. pose proof (Hpl _ _ F p https t Hp eq_refl) as ->.
-    split; [exact Hpl|]. split.
-    + destruct https; cbn; intros h Hin; [contradiction|destruct Hin as [<-|[]]; reflexivity].
-    + intros ->. reflexivity.
-  - split; [|split].
-    + intros k h [X|X] q hs t' Hq E.
-      * injection X as <- <-. symmetry in E. now destruct (key_determines_auth p q https hs t t' Hp Hq E) as [_ ->].
-      * exact (Hpl k h X q hs t' Hq E).
-    + intros h [<-|[]]. reflexivity.
-    + reflexivity.
-Qed.
+  Lemma pool_find_in k pl h : pool_find k pl = Some h -> In (k, h) pl.
+  Proof.
+    induction pl as [|[k' h'] r IH]; [discriminate|]. cbn [pool_find].
+    destruct (key_eqb k k') eqn:E.
+    - apply key_eqb_eq in E. intros X. injection X as ->. left. now subst.
+    - intros X. right. auto.
+  Qed.
 
-(* a whole sequence on one client: whatever proxy URLs (password rotations included) and targets
-   came before, everything the proxy receives for request i is the credential of request i's
-   proxy URL; a plain-http request always carries exactly that one value *)
-Theorem proxy_run_current rs : forall pl, pool_ok pl ->
+  Theorem proxy_step_current pl p https t : pool_ok pl -> host_ok p ->
+    let '(seen, pl') := proxy_step static pl p https t in
+    pool_ok pl' /\ (forall h, In h seen -> h = sent_auth static https p) /\
+    (https = false -> seen = [proxy_auth p]).
+  Proof.
+    intros Hpl Hp. unfold proxy_step, proxy_step_with. fold (conn_key_of p https t).
+    destruct (pool_find (conn_key_of p https t) pl) as [h|] eqn:F.
+    - apply pool_find_in in F. pose proof (Hpl _ _ F p https t Hp eq_refl) as ->.
+      split; [exact Hpl|]. split.
+      + destruct https; cbn [In]; intros h Hin; [contradiction|destruct Hin as [<-|[]]; reflexivity].
+      + intros ->. reflexivity.
+    - split; [|split].
+      + intros k h [X|X] q hs t' Hq E.
+        * injection X as <- <-. symmetry in E.
+          destruct (key_determines_auth p q https hs t t' Hp Hq E) as [-> [-> _]]. reflexivity.
+        * exact (Hpl k h X q hs t' Hq E).
+      + intros h [<-|[]]. reflexivity.
+      + intros ->. reflexivity.
+  Qed.
+
+  (* a whole sequence on one client: whatever proxy URLs (password rotations, URLs without
+     userinfo) and targets came before, everything the proxy receives for request i is the
+     credential request i's proxy URL prescribes (for CONNECT: the URL's, else the caller's
+     static one); a plain-http request always carries exactly the URL's *)
+  Theorem proxy_run_current rs : forall pl, pool_ok pl ->
+    Forall (fun r : proxy_req => host_ok (fst (fst r))) rs ->
+    Forall2 (fun (r : proxy_req) seen =>
+               (forall h, In h seen -> h = sent_auth static (snd (fst r)) (fst (fst r))) /\
+               (snd (fst r) = false -> seen = [proxy_auth (fst (fst r))]))
+            rs (proxy_run_with pu_string static pl rs).
+  Proof.
+    induction rs as [|[[p https] t] r IH]; intros pl Hpl Hok; [constructor|].
+    inversion Hok as [|? ? Hp Hr]; subst. cbn [fst snd] in Hp.
+    cbn [proxy_run_with]. pose proof (proxy_step_current pl p https t Hpl Hp) as X.
+    unfold proxy_step in X. destruct (proxy_step_with pu_string static pl p https t) as [seen pl'].
+    destruct X as [Hpl' [A B]]. constructor; [split; assumption|]. apply IH; assumption.
+  Qed.
+
+  Lemma pool_ok_nil : pool_ok [].
+  Proof. intros k h []. Qed.
+End Static.
+
+(* in particular: a proxy URL without userinfo never receives credentials of another proxy URL
+   (no static Proxy-Authorization configured) *)
+Corollary no_userinfo_no_credentials rs :
   Forall (fun r : proxy_req => host_ok (fst (fst r))) rs ->
-  Forall2 (fun (r : proxy_req) seen =>
-             (forall h, In h seen -> h = proxy_auth (fst (fst r))) /\
-             (snd (fst r) = false -> seen = [proxy_auth (fst (fst r))]))
-          rs (proxy_run_with pu_string pl rs).
+  Forall2 (fun (r : proxy_req) seen => pu_user (fst (fst r)) = None -> forall h, In h seen -> h = None)
+          rs (proxy_run None [] rs).
 Proof.
-  induction rs as [|[[p https] t] r IH]; intros pl Hpl Hok; [constructor|].
-  inversion Hok as [|? ? Hp Hr]; subst. cbn [fst snd] in Hp.
-  cbn [proxy_run_with]. pose proof (proxy_step_current pl p https t Hpl Hp) as X.
-  unfold proxy_step in X. destruct (proxy_step_with pu_string pl p https t) as [seen pl'].
-  destruct X as [Hpl' [A B]]. constructor; [split; assumption|]. apply IH; assumption.
+  intros H. pose proof (proxy_run_current None rs [] (pool_ok_nil None) H) as X.
+  unfold proxy_run. clear H. induction X as [|[[p hs] t] seen rs' l' [A _] _ IH]; [constructor|].
+  constructor; [|exact IH]. cbn [fst snd] in *. intros Hn h Hin. rewrite (A h Hin). unfold sent_auth, connect_auth, proxy_auth.
+  rewrite Hn. destruct hs; reflexivity.
 Qed.
-
-Lemma pool_ok_nil : pool_ok [].
-Proof. intros k h []. Qed.
 
 (* keyed by URL.Redacted() instead (seeded change c-m1): the rotated password is not sent *)
 Example redacted_key_refuted :
   let a := mkPU (Some (bs "alice", Some (bs "first-secret"))) (bs "127.0.0.1:3128") in
   let b := mkPU (Some (bs "alice", Some (bs "second-secret"))) (bs "127.0.0.1:3128") in
-  proxy_run_with pu_redacted [] [(a, false, []); (b, false, [])] = [[proxy_auth a]; [proxy_auth a]] /\
+  proxy_run_with pu_redacted None [] [(a, false, []); (b, false, [])] = [[proxy_auth a]; [proxy_auth a]] /\
   proxy_auth a <> proxy_auth b /\
-  proxy_run [] [(a, false, []); (b, false, [])] = [[proxy_auth a]; [proxy_auth b]].
+  proxy_run None [] [(a, false, []); (b, false, [])] = [[proxy_auth a]; [proxy_auth b]].
 Proof. cbv zeta. repeat split; try (vm_compute; reflexivity). vm_compute. discriminate. Qed.
+
+(* the CONNECT header written into the shared static map (seeded change d-m3): the first proxy's
+   credentials reach a later proxy that was given none *)
+Example shared_connect_header_refuted :
+  let a := mkPU (Some (bs "alice", Some (bs "secret"))) (bs "127.0.0.1:3128") in
+  let b := mkPU None (bs "127.0.0.1:3129") in
+  let rs := [(a, true, bs "origin:443"); (b, true, bs "origin:443")] in
+  proxy_run None [] rs = [[proxy_auth a]; [None]] /\
+  proxy_run_shared None [] rs = [[proxy_auth a]; [proxy_auth a]].
+Proof. cbv zeta. split; vm_compute; reflexivity. Qed.
 
 (* ---------- the source is the one modelled ---------- *)
 
